@@ -31,6 +31,8 @@ func cmdHistory(args []string) int {
 	crash := fs.Bool("crash", false, "crash points: copy+reopen the store after every Sync")
 	tmp := fs.String("tmp", os.TempDir(), "directory for the stores")
 	in := fs.String("in", "", "run the cases of this json file (list of cases) instead of generating")
+	restarts := fs.Int("restarts", 0, "additional cases whose workload goes on across process restarts (persistent backends)")
+	maxProcs := fs.Int("maxprocs", 3, "restart cases: max processes per store")
 	fs.Parse(args)
 
 	var cases []*histdrv.Case
@@ -48,6 +50,11 @@ func cmdHistory(args []string) int {
 		r := rand.New(rand.NewSource(*seed))
 		for i := 0; i < *n; i++ {
 			cases = append(cases, histdrv.GenCase(r, i+1, *maxMuts))
+		}
+		// their own stream: the regular cases of a seed do not depend on -restarts
+		rr := rand.New(rand.NewSource(*seed*7919 + 13))
+		for i := 0; i < *restarts; i++ {
+			cases = append(cases, histdrv.GenRestartCase(rr, *n+i+1, *maxProcs))
 		}
 	}
 	bks := strings.Split(*backends, ",")
@@ -104,7 +111,16 @@ func cmdHistory(args []string) int {
 		fmt.Fprintln(os.Stderr, err)
 		return 2
 	}
-	st, _ := json.Marshal(map[string]any{"cases": len(cases), "backends": bks, "lines": lines})
+	blocks := 0
+	for _, evs := range results {
+		for _, ev := range evs {
+			if _, ok := ev.(histdrv.CaseEv); ok {
+				blocks++
+			}
+		}
+	}
+	st, _ := json.Marshal(map[string]any{"cases": len(cases), "backends": bks, "lines": lines,
+		"blocks": blocks})
 	fmt.Println(string(st))
 	return 0
 }
